@@ -43,12 +43,20 @@ inductive Named
   | iv (i : Interval)
 deriving Repr
 
-/-- one observation: script line, incarnation of the module, kind, `SimTime::now()` -/
+/-- one observation: script line, incarnation of the module, kind, `SimTime::now()`.
+    Ghost fields (not printed, not compared): for the completion of a timer (`s`, `el`, `a`, `k…`,
+    `rdy`) `due` is the deadline of the `Sleep` that completed and `since` the time from which it was
+    being waited for (`Sleep.since`). -/
 structure Obs where
   line : Nat
   inc : Nat
   kind : String
   time : Nat
+  due : Option Nat := none
+  since : Nat := 0
+  /-- ghost: completion of a `Sleep` owned by the awaiting future itself (`sleep`, `sleep_until`,
+      the delay of a `timeout`), which is polled on every poll of its task -/
+  own : Bool := false
 deriving Repr, DecidableEq
 
 /-- interpreter context of one task poll -/
@@ -65,7 +73,11 @@ structure Ctx where
 
 def Ctx.emit (c : Ctx) (ops : List Op) : Ctx := { c with ops := c.ops ++ ops }
 def Ctx.obs (c : Ctx) (kind : String) : Ctx :=
-  { c with log := c.log ++ [⟨c.line, c.inc, kind, c.now⟩] }
+  { c with log := c.log ++ [{ line := c.line, inc := c.inc, kind := kind, time := c.now }] }
+/-- observation of a timer completion -/
+def Ctx.fin (c : Ctx) (kind : String) (due since : Nat) (own : Bool := false) : Ctx :=
+  { c with log := c.log ++ [{ line := c.line, inc := c.inc, kind := kind, time := c.now, due := some due,
+                              since := since, own := own }] }
 
 def envGet (env : List (String × Named)) (x : String) : Option Named :=
   (env.find? (·.1 == x)).map (·.2)
@@ -101,7 +113,7 @@ def dropFut : Fut → List Op
 def pollSleep (s : Sleep) (c : Ctx) (kind : String) : Option Fut × Ctx :=
   let (s', ops, r) := s.poll c.tid c.now
   let c := c.emit ops
-  if r then (none, c.obs kind) else (some (.sleeping s'), c)
+  if r then (none, c.fin kind s.deadline (s.since c.now) true) else (some (.sleeping s'), c)
 
 /-- one `Future::poll`; `none` = `Poll::Ready` -/
 def poll : Fut → Ctx → Option Fut × Ctx
@@ -123,7 +135,7 @@ def poll : Fut → Ctx → Option Fut × Ctx
       let (s', ops, r) := Timeout.poll false s c1.tid c1.now
       let c2 := c1.emit ops
       match r with
-      | some _ => (none, ((c2.emit (dropFut e')).emit s'.drop).obs "el")
+      | some _ => (none, ((c2.emit (dropFut e')).emit s'.drop).fin "el" s.deadline (s.since c1.now) true)
       | none => (some (.timeoutRun s' e'), c2)
   | .timeoutRun s e, c =>
     match poll e c with
@@ -134,7 +146,7 @@ def poll : Fut → Ctx → Option Fut × Ctx
       let (s', ops, r) := Timeout.poll false s c1.tid c1.now
       let c2 := c1.emit ops
       match r with
-      | some _ => (none, ((c2.emit (dropFut e')).emit s'.drop).obs "el")
+      | some _ => (none, ((c2.emit (dropFut e')).emit s'.drop).fin "el" s.deadline (s.since c1.now) true)
       | none => (some (.timeoutRun s' e'), c2)
   | .select a b, c =>
     match poll a c with
@@ -155,7 +167,8 @@ def poll : Fut → Ctx → Option Fut × Ctx
     match envGet c.env x with
     | some (.sl s) =>
       let (s', ops, r) := s.poll c.tid c.now
-      (none, ({ c with env := envSet c.env x (.sl s') }.emit ops).obs (if r then "rdy" else "pnd"))
+      let c' := { c with env := envSet c.env x (.sl s') }.emit ops
+      (none, if r then c'.fin "rdy" s.deadline (s.since c.now) else c'.obs "pnd")
     | _ => (none, c.obs "mis")
   | .reset x d, c =>
     match envGet c.env x with
@@ -178,7 +191,7 @@ def poll : Fut → Ctx → Option Fut × Ctx
     | some (.sl s) =>
       let (s', ops, r) := s.poll c.tid c.now
       let c := { c with env := envSet c.env x (.sl s') }.emit ops
-      if r then (none, c.obs "a") else (some (.await x), c)
+      if r then (none, c.fin "a" s.deadline (s.since c.now)) else (some (.await x), c)
     | _ => (none, c.obs "mis")
   | .inew x p m d, c =>
     (none, ({ c with nextId := c.nextId + 1 }).bind x
@@ -189,7 +202,7 @@ def poll : Fut → Ctx → Option Fut × Ctx
       let (i', ops, r) := i.pollTick c.tid c.now
       let c := { c with env := envSet c.env x (.iv i') }.emit ops
       match r with
-      | some t => (none, c.obs ("k" ++ toString t))
+      | some t => (none, c.fin ("k" ++ toString t) t (i.delay.since c.now))
       | none => (some (.tick x), c)
     | _ => (none, c.obs "mis")
   | .ireset x, c =>
@@ -266,6 +279,8 @@ structure Mod where
   nextId : Nat := 0
   restartAt : Option Nat := none
   cancelled : Nat := 0
+  /-- observations of this module's tasks, in the order they were made -/
+  log : List Obs := []
   /-- time of this module's last event -/
   last : Nat := 0
   -- statistics
@@ -280,43 +295,46 @@ def emptyBeforeLive : List Slot → Bool
   | [] => false
   | s :: rest => if s.entries.isEmpty then rest.any (fun r => !r.entries.isEmpty) else emptyBeforeLive rest
 
-/-- One event of module `m` at time `now`: `activate`, handler (`at_sim_start` spawns every task),
-    one scheduler turn, `deactivate`, then `buf_process` (shutdown request).  Returns the module,
-    the extended log, and the `Timer.Ev`s this event amounts to. -/
-def Mod.event (nx : List Slot → Option Nat) (m : Mod) (now : Nat) (k : Kind) (log : List Obs) :
-    Mod × List Obs × List Ev :=
-  let wake : Bool := k = .wake
-  -- `activate`: the entries of the popped slots are woken (they do not depend on what runs afterwards)
-  let woken := (stepWith nx m.timer { time := now, wake := wake, ops := [] }).2
-  let spawn := k = .start || k = .restart
-  let inc := if k = .restart then m.inc + 1 else m.inc
-  let active := m.active || spawn
-  let tasks := if spawn then spawnAll m.progs else m.tasks
-  let run : Nat → Bool := fun i => spawn || (active && woken.any (·.tid == i))
-  let (tasks', a) := pollTasks tasks 0 run now inc ⟨m.nextId, log, [], none⟩
-  -- the whole event as far as the driver is concerned: activate, the emitted ops, deactivate
-  let ev1 : Ev := { time := now, wake := wake, ops := a.ops }
+/-- second half of a module event, after the scheduler turn left the tasks `tasks'` and the shared
+    state `a`: the whole event as far as the driver is concerned (`ev1`: activate, the emitted ops,
+    deactivate), then `buf_process` (shutdown request). -/
+def Mod.finish (nx : List Slot → Option Nat) (m : Mod) (now : Nat) (k : Kind) (nwoken inc : Nat) (active : Bool)
+    (tasks' : List Task) (a : Acc) : Mod × List Ev :=
+  let ev1 : Ev := { time := now, wake := k = .wake, ops := a.ops }
   let t3 := (stepWith nx m.timer ev1).1
   let m1 : Mod := { m with tasks := tasks', active := active, inc := inc, timer := t3, nextId := a.nextId,
-                           restartAt := if k = .restart then none else m.restartAt, last := now,
-                           fired := m.fired + woken.length,
-                           ties := m.ties + (if woken.length ≥ 2 then 1 else 0),
+                           restartAt := if k = .restart then none else m.restartAt, last := now, log := a.log,
+                           fired := m.fired + nwoken,
+                           ties := m.ties + (if nwoken ≥ 2 then 1 else 0),
                            emptyFront := m.emptyFront + (if emptyBeforeLive t3.pending then 1 else 0) }
   match a.shut, k with
-  | _, .simEnd => (m1, a.log, [ev1])
-  | none, _ => (m1, a.log, [ev1])
+  | _, .simEnd => (m1, [ev1])
+  | none, _ => (m1, [ev1])
   | some r, _ =>
     -- buf_process: active := false; the tokio runtime is dropped (every task future is dropped);
     -- activate; Module::reset; deactivate; schedule the restart
     let ev2 : Ev := { time := now, wake := false, pre := tasks'.flatMap Task.dropOps, ops := [] }
     ({ m1 with tasks := [], active := false, timer := (stepWith nx t3 ev2).1, restartAt := r,
                cancelled := m1.cancelled + (tasks'.filter (fun t => !t.done)).length },
-     a.log, [ev1, ev2])
+     [ev1, ev2])
+
+/-- One event of module `m` at time `now`: `activate`, handler (`at_sim_start` spawns every task),
+    one scheduler turn, `deactivate`, then `buf_process` (shutdown request).  Returns the module
+    (its `log` extended) and the `Timer.Ev`s this event amounts to. -/
+def Mod.event (nx : List Slot → Option Nat) (m : Mod) (now : Nat) (k : Kind) : Mod × List Ev :=
+  -- `activate`: the entries of the popped slots are woken (they do not depend on what runs afterwards)
+  let woken := (stepWith nx m.timer { time := now, wake := k = .wake, ops := [] }).2
+  let spawn := k = .start || k = .restart
+  let inc := if k = .restart then m.inc + 1 else m.inc
+  let active := m.active || spawn
+  let tasks := if spawn then spawnAll m.progs else m.tasks
+  let run : Nat → Bool := fun i => spawn || (active && woken.any (·.tid == i))
+  let r := pollTasks tasks 0 run now inc ⟨m.nextId, m.log, [], none⟩
+  Mod.finish nx m now k woken.length inc active r.1 r.2
 
 structure Sim where
   now : Nat := 0
   mods : List Mod
-  log : List Obs := []
   /-- all modules satisfied `wakeInvB` after each of their events so far -/
   invOk : Bool := true
   events : Nat := 0
@@ -349,8 +367,8 @@ def Sim.eventOn (nx : List Slot → Option Nat) (s : Sim) (i : Nat) (now : Nat) 
   match s.mods[i]? with
   | none => s
   | some m =>
-    let (m', log, _) := m.event nx now k s.log
-    { s with now := now, mods := s.mods.set i m', log := log, events := s.events + 1,
+    let (m', _) := m.event nx now k
+    { s with now := now, mods := s.mods.set i m', events := s.events + 1,
              invOk := s.invOk && wakeInvB now m'.timer }
 
 def Sim.loop (nx : List Slot → Option Nat) : Nat → Sim → Option Sim
@@ -364,12 +382,76 @@ def Sim.forAll (nx : List Slot → Option Nat) (s : Sim) (k : Kind) : Nat → Na
   | 0, _ => s
   | n + 1, i => Sim.forAll nx (s.eventOn nx i s.now k) k n (i + 1)
 
+/-! ### fuel of the event loop
+
+A potential of the simulation state that every event of the loop strictly decreases
+(Proofs/TimerTerm.lean): wake-up events in the event set + slots in the queues + twice the number
+of slot-creating queue operations the scripts can still perform + restart / shutdown budget. -/
+
+/-- an unregistered `Sleep` may register once when polled -/
+def Sleep.u (s : Sleep) : Nat := if s.handle.isSome then 0 else 1
+
+def Named.u : Named → Nat
+  | .sl s => s.u
+  | .iv i => i.delay.u
+
+def envU : List (String × Named) → Nat
+  | [] => 0
+  | (_, v) :: rest => v.u + envU rest
+
+/-- bound on the slot-creating operations (`register`, `reset`) a term can still emit -/
+def w : Fut → Nat
+  | .nop => 0
+  | .sleep _ => 1
+  | .until_ _ => 1
+  | .sleeping s => s.u
+  | .timeout _ e => 1 + w e
+  | .timeoutRun s e => s.u + w e
+  | .select a b => w a + w b
+  | .seq a b => w a + w b
+  | .new _ _ => 1
+  | .newu _ _ => 1
+  | .pollOnce _ => 1
+  | .reset _ _ => 2
+  | .resetu _ _ => 2
+  | .drop _ => 0
+  | .await _ => 1
+  | .inew _ _ _ _ => 1
+  | .tick _ => 1
+  | .ireset _ => 2
+  | .restart _ => 0
+  | .halt => 0
+
+def W : List (Nat × Fut) → Nat
+  | [] => 0
+  | (_, f) :: rest => w f + W rest
+
+def taskW (t : Task) : Nat := W t.lines + envU t.env
+
+def tasksW : List Task → Nat
+  | [] => 0
+  | t :: rest => taskW t + tasksW rest
+
+def progW (progs : List (List (Nat × Fut))) : Nat := (progs.map W).sum
+
+def tPhi (t : State) : Nat := t.wakeups.length + t.pending.length
+def rflag (m : Mod) : Nat := if m.restartAt.isSome then 1 else 0
+def aflag (b : Bool) : Nat := if b then 3 else 0
+
+/-- potential of one module -/
+def mPhi (m : Mod) : Nat :=
+  tPhi m.timer + 2 * tasksW m.tasks + rflag m + (if m.inc = 0 then 2 * progW m.progs + 5 else 0) + aflag m.active
+
+/-- fuel that suffices for the event loop from this state on -/
+def Sim.fuel (s : Sim) : Nat := (s.mods.map mPhi).sum + 1
+
 /-- `Runtime::run`: `at_sim_start` of every module, the event loop, `at_sim_end` of every module.
-    `none` = fuel exhausted (reported by the driver, never silently accepted). -/
-def Sim.run (nx : List Slot → Option Nat) (progs : List (List (List (Nat × Fut)))) (fuel : Nat) : Option Sim :=
+    The loop runs on the fuel computed from the state after start-up; for the repaired `next` it
+    never runs out (`sim_run_terminates`), `none` is kept only for other `nx`. -/
+def Sim.run (nx : List Slot → Option Nat) (progs : List (List (List (Nat × Fut)))) : Option Sim :=
   let s0 : Sim := { mods := progs.map fun p => { progs := p } }
   let s1 := Sim.forAll nx s0 .start s0.mods.length 0
-  match Sim.loop nx fuel s1 with
+  match Sim.loop nx s1.fuel s1 with
   | none => none
   | some s2 => some (Sim.forAll nx s2 .simEnd s2.mods.length 0)
 
